@@ -349,6 +349,10 @@ func (s *Sim) Gen(r *PRNG) Step {
 			st.S = sprintf("%s-4294967296", s.Cfg.Sets[st.A].Name)
 			st.D = r.Intn(4)
 		}
+		if (s.Cfg.Profile == "ownership" || s.Cfg.Profile == "claimsrepair" || s.Cfg.Profile == "lying") && r.Chance(0.25) {
+			st.C = st.C&^3 | []int{ownNone, ownThis}[r.Intn(2)] | 1<<12
+			st.C = st.C&^(7<<2) | 3<<2
+		}
 		if (s.Cfg.Profile == "events" || s.Cfg.Profile == "ownership") && r.Chance(0.15) {
 			// controller reference written through another served version of the group
 			st.C = st.C&^3 | ownThis | 1<<10
